@@ -206,6 +206,11 @@ func (b *expandBody) expandBlocks(schema *hcl.BodySchema, rawBlocks hcl.Blocks, 
 			}
 
 			forEachVal, marks := spec.forEachVal.Unmark()
+			// Everything generated here also depends on whatever the
+			// enclosing generated block depended on.
+			if len(b.valueMarks) != 0 {
+				marks = cty.NewValueMarks(marks, b.valueMarks)
+			}
 			if forEachVal.IsKnown() {
 				for it := forEachVal.ElementIterator(); it.Next(); {
 					key, value := it.Element()
@@ -243,7 +248,7 @@ func (b *expandBody) expandBlocks(schema *hcl.BodySchema, rawBlocks hcl.Blocks, 
 				// case it contains expressions that refer to our inherited
 				// iterators, or nested "dynamic" blocks.
 				expandedBlock := *rawBlock // shallow copy
-				expandedBlock.Body = b.expandChild(rawBlock.Body, b.iteration, nil)
+				expandedBlock.Body = b.expandChild(rawBlock.Body, b.iteration, b.valueMarks)
 				blocks = append(blocks, &expandedBlock)
 			}
 		}
